@@ -130,6 +130,7 @@ type forced struct {
 	parkedCB   map[int]*genT
 	parkedRM   []*parkedRemove
 	script     *Script
+	stuck      bool
 }
 
 func (f *forced) isCtrl() bool {
@@ -456,13 +457,15 @@ func (f *forced) step(o Op) []string {
 		select {
 		case f.gate <- struct{}{}:
 		case <-time.After(2 * time.Second):
-			f.fail("harness-stuck", "timer loop did not reach Traverse within 2s")
+			f.fail("timer-loop-blocked", "timer loop did not reach Traverse within 2s")
+			f.stuck = true
 			return nil
 		}
 		select {
 		case <-f.iterDone:
 		case <-time.After(2 * time.Second):
-			f.fail("harness-stuck", "traverse did not finish within 2s")
+			f.fail("timer-loop-blocked", "the timer loop's traverse did not finish within 2s (blocked on a timer whose callback is running?)")
+			f.stuck = true
 			return nil
 		}
 		f.mu.Lock()
@@ -728,6 +731,9 @@ func runForced(sc *Script) caseOut {
 			}
 		}
 		steps := f.step(o)
+		if f.stuck {
+			break
+		}
 		f.drain(0, 0)
 		assign()
 		ob := f.observe()
